@@ -61,3 +61,69 @@ Lemma law_vars_off_final vs opost lab n pamt dev x y zz :
   let vs' := law_vars vs opost lab n pamt dev in
   v_major vs' = Some x /\ v_minor vs' = Some y /\ v_patch vs' = Some (zz + 1) /\ v_pre vs' = Some {| pr_label := lab; pr_num := Some n |}.
 Proof. intros E1 E2 E3 E4. unfold law_vars. cbn. rewrite E1, E2, E3, E4. cbn. repeat split; reflexivity. Qed.
+
+(* ======================= the PEP 440 side ======================= *)
+From ZV Require Import Pep440Spec Pep440StdOrder OrderFacts Pep440Order Placement PepPlacement PepWfProofs.
+
+Definition pep_final (e : N) (r : list N) : pep :=
+  {| p_epoch := e; p_release := r; p_pre_label := None; p_pre_num := None; p_post_label := false; p_post_num := None;
+     p_dev_label := false; p_dev_num := None; p_local := None |}.
+
+(* any PEP 440 value with release X.Y.(Z+1) and a pre-release label - whatever its post, dev and local parts - lies strictly between the
+   final releases X.Y.Z and X.Y.(Z+1) of the same epoch, in the public PEP 440 order *)
+Theorem pep_prerelease_between p e x y z l :
+  p_epoch p = e -> p_release p = [x; y; z + 1] -> p_pre_label p = Some l ->
+  pep_std_cmp (pep_final e [x; y; z]) p = Lt /\ pep_std_cmp p (pep_final e [x; y; z + 1]) = Lt.
+Proof.
+  intros He Hr Hl. unfold pep_std_cmp, pep_std_key, pair_cmp, then_with', std_pre, pep_final.
+  cbn [fst snd p_epoch p_release p_pre_label p_pre_num p_post_label p_dev_label p_local]. rewrite He, Hr, Hl, !N.compare_refl.
+  assert (H1 : lex N.compare (strip_zeros [x; y; z]) (strip_zeros [x; y; z + 1]) = Lt).
+  { cbn [strip_zeros]. destruct (N.eqb_spec (z + 1) 0); [lia|].
+    destruct (N.eqb_spec z 0) as [->|Hz].
+    - destruct (N.eqb_spec y 0) as [->|Hy].
+      + destruct (N.eqb_spec x 0) as [->|Hx]; cbn; rewrite ?N.compare_refl; reflexivity.
+      + cbn. rewrite !N.compare_refl. reflexivity.
+    - cbn. rewrite !N.compare_refl. assert (E : N.compare z (z + 1) = Lt) by (apply N.compare_lt_iff; lia). rewrite E. reflexivity. }
+  rewrite H1. split; [reflexivity|].
+  rewrite (gc_refl _ (lex_good N.compare N_good)). reflexivity.
+Qed.
+
+(* the PEP 440 rendering of an object with variables (X, Y, W) + pre-release through a validated standard-core schema showing the
+   pre-release variable has release [X; Y; W] and a pre-release label *)
+Lemma standard_release vs x y w : v_major vs = Some x -> v_minor vs = Some y -> v_patch vs = Some w -> u32 x -> u32 y -> u32 w ->
+  pep_release_of vs standard_core = [x; y; w].
+Proof.
+  intros E1 E2 E3 Hx Hy Hw. unfold pep_release_of, standard_core. cbn [flat_map].
+  rewrite (u32_value_var Major v_major vs numvar_major), (u32_value_var Minor v_minor vs numvar_minor), (u32_value_var Patch v_patch vs numvar_patch);
+  rewrite ?E1, ?E2, ?E3; cbn; try assumption. reflexivity.
+Qed.
+
+Lemma owns_in v l : In (CVar v) l -> has_var v l = true.
+Proof.
+  intros H. unfold has_var. apply existsb_exists. exists (CVar v). split; [exact H|]. cbn. apply SchemaProofs.var_eqb_true. reflexivity.
+Qed.
+
+Theorem pep_prerelease_rendering z x y w lab n :
+  schema_validate (z_schema z) = true -> s_core (z_schema z) = standard_core -> In (CVar PreRelease) (s_extra (z_schema z)) ->
+  v_major (z_vars z) = Some x -> v_minor (z_vars z) = Some y -> v_patch (z_vars z) = Some w ->
+  v_pre (z_vars z) = Some {| pr_label := lab; pr_num := Some n |} -> u32 x -> u32 y -> u32 w -> u32 n ->
+  exists p, pep_of_zerv z = Some p /\ p_release p = [x; y; w] /\ p_pre_label p = Some lab.
+Proof.
+  intros Hv Hc Hin E1 E2 E3 Ep Hx Hy Hw Hn.
+  assert (Hex : extra_ok (s_extra (z_schema z)) [] = true) by (unfold schema_validate in Hv; rewrite !andb_true_iff in Hv; tauto).
+  exists (pep_placement z). split; [apply pep_refines_placement, Hex|].
+  unfold pep_placement. cbn [pep_normalize p_release p_pre_label]. rewrite Hc, (standard_release _ x y w E1 E2 E3 Hx Hy Hw), (owns_in PreRelease _ Hin).
+  split; [reflexivity|]. unfold pre_of_vars. rewrite (pre_expanded (z_vars z) lab n Ep), label_sanitized_nonempty. cbn [fst]. apply label_sanitized.
+Qed.
+
+Theorem flow_version_between_pep z x y zz lab n e :
+  schema_validate (z_schema z) = true -> s_core (z_schema z) = standard_core -> In (CVar PreRelease) (s_extra (z_schema z)) ->
+  v_major (z_vars z) = Some x -> v_minor (z_vars z) = Some y -> v_patch (z_vars z) = Some (zz + 1) ->
+  v_pre (z_vars z) = Some {| pr_label := lab; pr_num := Some n |} -> u32 x -> u32 y -> u32 (zz + 1) -> u32 n ->
+  exists p, pep_of_zerv z = Some p /\ (p_epoch p = e ->
+    pep_std_cmp (pep_final e [x; y; zz]) p = Lt /\ pep_std_cmp p (pep_final e [x; y; zz + 1]) = Lt).
+Proof.
+  intros Hv Hc Hin E1 E2 E3 Ep Hx Hy Hw Hn.
+  destruct (pep_prerelease_rendering z x y (zz + 1) lab n Hv Hc Hin E1 E2 E3 Ep Hx Hy Hw Hn) as [p [P1 [P2 P3]]].
+  exists p. split; [exact P1|]. intros He. apply (pep_prerelease_between p e x y zz lab He P2 P3).
+Qed.
